@@ -259,6 +259,11 @@ def oracle(run, focus, c, ops, caps, final, steps, cj, clock):
                     run.violate("C19/reflection", "step log does not end with the queue reflection: %s" % toks[-3:], cj)
                 if o == 0 and "st" not in toks:
                     run.violate("C19/start-marker", "no START marker in the start_at log", cj)
+                # a RECALL marker names the event that is recalled: the post it causes follows it and carries the same signal
+                for idx, t in enumerate(toks):
+                    if t.startswith("rc.") and (idx + 1 >= len(toks) or toks[idx + 1] != "pf." + t[3:]):
+                        run.violate("C19/recall-marker", "the step log has %s followed by %s: the RECALL line does not name the event "
+                                    "that was recalled and posted" % (t, toks[idx + 1] if idx + 1 < len(toks) else "nothing"), cj)
             else:
                 run.count("step log overflowed the rtc ring")
     if focus == "C20":
@@ -275,6 +280,21 @@ def oracle(run, focus, c, ops, caps, final, steps, cj, clock):
                     ntr += 1
             if len(recs) != ntr:
                 run.violate("C20/record-count", "%d trace records for %d transition steps (incl. start)" % (len(recs), ntr), cj)
+            else:
+                # each record carries the signal of the event that was dispatched in its step (first user-signal offer)
+                k = 0
+                for st in steps:
+                    o, a = st["op"]
+                    is_tr = o == 0 or (o == 8 and any(kk in ("en", "ex", "in") for _, kk in st["calls"]))
+                    if not is_tr:
+                        continue
+                    rec = recs[k]
+                    k += 1
+                    if o == 8:
+                        offered = [kk for _, kk in st["calls"] if kk[0] == "u"]
+                        if offered and sig_tok(rec.signal or "") != offered[0]:
+                            run.violate("C20/record-signal", "the step dispatched %s (%s -> %s) but its trace record names %s"
+                                        % (offered[0], rec.start_state, rec.end_state, rec.signal), cj)
             if recs and (recs[0].start_state != "top" or recs[0].signal is not None):
                 run.violate("C20/start-record", "first record is %s" % (recs[0],), cj)
             for a, b in zip(recs, recs[1:]):
